@@ -9,7 +9,8 @@ use std::sync::atomic::{AtomicU64, Ordering::Relaxed};
 use std::sync::Mutex;
 use std::time::Instant;
 
-pub const VERIF_DIR: &str = "/verif";
+/// Output root (evidence/, replays/, known_findings.json). Overridable for scratch copies.
+pub fn verif_dir() -> String { std::env::var("VX_VERIF_DIR").unwrap_or_else(|_| "/verif".to_string()) }
 
 #[derive(Clone, Copy, PartialEq, Eq, Debug)]
 pub enum Tier { Quick, Thorough }
@@ -186,7 +187,7 @@ impl Report {
         let mut exit = 0;
         let mut new_viol = 0u64;
         let mut known_hit: BTreeMap<String, u64> = BTreeMap::new();
-        let dir = format!("{}/replays/{}", VERIF_DIR, self.property);
+        let dir = format!("{}/replays/{}", verif_dir(), self.property);
         let tier_s = if self.tier == Tier::Thorough { "thorough" } else { "quick" };
 
         if let Some(r) = &self.replay {
@@ -250,8 +251,8 @@ impl Report {
             ],
             "wall_s": wall, "violations": new_viol,
         });
-        let _ = std::fs::create_dir_all(format!("{}/evidence", VERIF_DIR));
-        let path = format!("{}/evidence/{}.json", VERIF_DIR, self.property);
+        let _ = std::fs::create_dir_all(format!("{}/evidence", verif_dir()));
+        let path = format!("{}/evidence/{}.json", verif_dir(), self.property);
         if let Err(e) = std::fs::write(&path, serde_json::to_string_pretty(&ev).unwrap()) { eprintln!("cannot write evidence: {}", e); if exit == 0 { exit = 2; } }
         println!("{} tier={} evaluations={} nontrivial={} unmodelled={} new_violations={} known_findings={} wall={:.1}s exit={}",
             self.property, tier_s, evals, nontriv, self.tot_unmodelled.load(Relaxed), new_viol, known_hit.len(), wall, exit);
@@ -264,7 +265,7 @@ fn truncate(s: &str, n: usize) -> String { if s.len() <= n { s.to_string() } els
 /// known_findings.json: [{"status":"known"|"fixed","property":"Cxx","key":"site|class","what":"..."}]
 /// Only `known` entries suppress; `fixed` entries suppress nothing.
 fn load_known(property: &str) -> Vec<(String, String)> {
-    let p = format!("{}/known_findings.json", VERIF_DIR);
+    let p = format!("{}/known_findings.json", verif_dir());
     let Ok(s) = std::fs::read_to_string(&p) else { return Vec::new() };
     let Ok(v) = serde_json::from_str::<Value>(&s) else { eprintln!("known_findings.json does not parse"); return Vec::new() };
     v.as_array().map(|a| a.iter().filter(|e| e["status"] == "known" && e["property"] == property)
